@@ -203,12 +203,20 @@ def family_hier(tier, variants=VARIANTS):
     """Descriptors (skeleton, wiring indices, variant) of the whole family, simplest first."""
     out = []
     for sk, (defs, leaves, t) in SKELETONS.items():
-        if t == "thorough" and tier != "thorough":
-            continue
         ws = skeleton_wirings(sk)
+        total = 1
+        for w in ws:
+            total *= len(w)
+        # the deeper skeletons enter the quick tier with a fixed arithmetic slice of their wirings
+        # (every wiring in the thorough tier)
+        stride = 1 if (t != "thorough" or tier == "thorough") else max(1, total // 1500)
         for idx in itertools.product(*[range(len(w)) for w in ws]):
+            if stride > 1 and (sum(i * (k + 1) for k, i in enumerate(idx)) % stride):
+                continue
             for v in variants:
                 if tier != "thorough" and v != "plain" and sk not in ("K1-chain2", "K2-shared", "K8-bus"):
+                    continue
+                if stride > 1 and v != "plain":
                     continue
                 out.append((sk, idx, v))
     return out
